@@ -108,6 +108,22 @@ package bridgeservice
 // a proof is served (status 200) only when every parameter parsed and every one of the look-ups above succeeded
 //@   assert call:JSON arg1 == 200 ==> reqFaults == old(reqFaults)
 
+// the injected-info endpoint (C12: the L1 info leaf a claim on an L2 is built with must be one whose global exit root is
+// on that L2): for the mainnet the leaf at the index asked; for this network the leaf of the first root injected at or
+// after the index asked - looked up in the injected-GER index for exactly that index, then read from the L1 info tree
+// at the index the injected root carries; other networks are refused; 200 only when every parse and look-up succeeded
+//@ interface github.com/agglayer/aggkit/bridgeservice.LastGERer.GetFirstGERAfterL1InfoTreeIndex (self, ctx, atOrAfterL1InfoTreeIndex)
+//@   modifies reqFaults
+//@   ensures reqFaults == old(reqFaults) + ite(result1 == nil, 0, 1)
+//@ func (b *BridgeService) InjectedL1InfoLeafHandler (b, c)
+//@   props C12
+//@   requires b != nil && b.logger != nil && b.l1InfoTree != nil && b.injectedGERs != nil && c != nil
+//@   modifies heap
+//@   assert call:GetInfoByIndex:0 recv == b.l1InfoTree && networkID == 0 && arg1 == l1InfoTreeIndex
+//@   assert call:GetFirstGERAfterL1InfoTreeIndex recv == b.injectedGERs && networkID == b.networkID && networkID != 0 && arg1 == l1InfoTreeIndex
+//@   assert call:GetInfoByIndex:1 recv == b.l1InfoTree && arg1 == e.L1InfoTreeIndex
+//@   assert call:JSON arg1 == 200 ==> reqFaults == old(reqFaults)
+
 // the index look-up endpoint (C12): mainnet bridges are looked up against mainnet exit roots, bridges of this network
 // against its local exit roots, for the deposit count asked for; other networks are refused
 // HTTP and metrics plumbing: assumed not to touch the service object (A4)
